@@ -27,11 +27,26 @@
   OF THIS SOFTWARE, EVEN IF ADVISED OF THE POSSIBILITY OF SUCH DAMAGE.
 **********************************************************************/
 
+#include <stddef.h>
+#include <stdint.h>
 #include <aes_gcm.h>
 #include <aes_keyexp.h>
 #include "aes_keyexp_internal.h"
 #include "aes_gcm.h"
 #include "aes_gcm_internal.h"
+
+#ifdef SAFE_DATA
+/* the decryption schedule is not needed by GCM: wipe the temporary copy (volatile stores are
+ * not optimised away) */
+static void
+gcm_pre_clear(void *p, size_t n)
+{
+        volatile uint8_t *v = (volatile uint8_t *) p;
+
+        while (n--)
+                *v++ = 0;
+}
+#endif
 
 void
 _aes_gcm_pre_128(const void *key, struct isal_gcm_key_data *key_data)
@@ -39,6 +54,9 @@ _aes_gcm_pre_128(const void *key, struct isal_gcm_key_data *key_data)
         uint8_t tmp_exp_key[ISAL_GCM_ENC_KEY_LEN * ISAL_GCM_KEY_SETS];
         _aes_keyexp_128((const uint8_t *) key, (uint8_t *) key_data->expanded_keys, tmp_exp_key);
         _aes_gcm_precomp_128(key_data);
+#ifdef SAFE_DATA
+        gcm_pre_clear(tmp_exp_key, sizeof(tmp_exp_key));
+#endif
 }
 
 void
@@ -47,6 +65,9 @@ _aes_gcm_pre_256(const void *key, struct isal_gcm_key_data *key_data)
         uint8_t tmp_exp_key[ISAL_GCM_ENC_KEY_LEN * ISAL_GCM_KEY_SETS];
         _aes_keyexp_256((const uint8_t *) key, (uint8_t *) key_data->expanded_keys, tmp_exp_key);
         _aes_gcm_precomp_256(key_data);
+#ifdef SAFE_DATA
+        gcm_pre_clear(tmp_exp_key, sizeof(tmp_exp_key));
+#endif
 }
 
 void
